@@ -77,6 +77,23 @@ func init() {
 			e.envState["clock"] = t
 			return nil
 		},
+		zzPath + ".Seed": func(e *Exec, fn *ssa.Function, a []Value) Value { return e.ts.Const(64, e.cfg.Seed) },
+		zzPath + ".Record": func(e *Exec, fn *ssa.Function, a []Value) Value {
+			name := e.concStr(a[0], "record name")
+			bs := e.sliceBytes(a[1].(SliceV))
+			var sb strings.Builder
+			for _, b := range bs {
+				if !b.IsConst() {
+					e.unsupported("selftest record %s is not concrete", name)
+				}
+				fmt.Fprintf(&sb, "%02x", b.K)
+			}
+			if e.Records == nil {
+				e.Records = map[string]string{}
+			}
+			e.Records[name] = sb.String()
+			return nil
+		},
 		zzPath + ".Crash": func(e *Exec, fn *ssa.Function, a []Value) Value { panic(crashSignal{}) },
 		zzPath + ".Try": func(e *Exec, fn *ssa.Function, a []Value) (res Value) {
 			savedCur, savedDepth := e.cur, e.depth
@@ -274,14 +291,19 @@ func init() {
 		"(time.Time).Truncate":     func(e *Exec, fn *ssa.Function, a []Value) Value { return a[0] },
 		"(time.Time).Format": inTimeFormat,
 		"time.Parse":         inTimeParse,
+		"regexp.MustCompile": func(e *Exec, fn *ssa.Function, a []Value) Value {
+			// the compiled expression is opaque; its (concrete) pattern is remembered
+			return &OpaqueV{T: fn.Signature.Results().At(0).Type(), Note: "regexp:" + e.concStr(a[0], "regexp pattern")}
+		},
 		"(*regexp.Regexp).ReplaceAllString": func(e *Exec, fn *ssa.Function, a []Value) Value {
-			// the only regular expression in the repository is the instance-id sanitiser [^a-zA-Z0-9-]
+			// evaluated by the real regexp package on concrete strings (the automaton is not encoded)
+			re, ok0 := a[0].(*OpaqueV)
 			src, ok := a[1].(*StrV)
 			repl, ok2 := a[2].(*StrV)
-			if !ok || !ok2 || !src.Concrete() || !repl.Concrete() {
-				e.unsupported("regexp on symbolic string")
+			if !ok0 || !strings.HasPrefix(re.Note, "regexp:") || !ok || !ok2 || !src.Concrete() || !repl.Concrete() {
+				e.unsupported("regexp on symbolic string or unknown expression")
 			}
-			return &StrV{S: regexp.MustCompile("[^a-zA-Z0-9-]").ReplaceAllString(src.S, repl.S)}
+			return &StrV{S: regexp.MustCompile(strings.TrimPrefix(re.Note, "regexp:")).ReplaceAllString(src.S, repl.S)}
 		},
 		"(time.Time).String":       func(e *Exec, fn *ssa.Function, a []Value) Value { return &StrV{S: "<time>"} },
 		"(time.Duration).Round":    func(e *Exec, fn *ssa.Function, a []Value) Value { return a[0] },
